@@ -164,7 +164,7 @@ func wrapWorkerContainer(trial *trialsv1beta1.Trial, pod *v1.Pod, namespace,
 		}
 		// If the first two commands are sh -c, we do not inject command.
 		if args[0] == "sh" || args[0] == "bash" {
-			if args[1] == "-c" {
+			if len(args) > 1 && args[1] == "-c" {
 				command = args[0:2]
 				args = args[2:]
 			}
